@@ -15,8 +15,8 @@ using namespace pbt;
 // ---------------------------------------------------------------------------------------------
 // page observation
 // ---------------------------------------------------------------------------------------------
-static const size_t PAGE = 4096;
-static const size_t HDR = 32; // aws_small_block_allocator_page_size_available() == PAGE - HDR, checked in run()
+static size_t PAGE = 4096; // both are re-read from the allocator in run(): the geometry is not part of the property
+static size_t HDR = 32;
 
 struct PageInfo {
     size_t cls = 0;      // class of the blocks carved from it (learned from the first block seen in it)
@@ -49,7 +49,7 @@ extern "C" void __real_free(void *);
 
 extern "C" int __wrap_posix_memalign(void **out, size_t align, size_t size) {
     int rc = __real_posix_memalign(out, align, size);
-    if (W && rc == 0 && align == PAGE && size == PAGE) {
+    if (W && rc == 0 && align == size && align >= 1024 && (align & (align - 1)) == 0) {
         PageInfo pi;
         pi.serial = ++W->page_allocs;
         W->pages[(uintptr_t)*out] = pi;
@@ -139,8 +139,12 @@ static void run(const Case &c, Ctx &ctx) {
     bool mt = c.c(0) % 2 == 1;
     struct aws_allocator *sba = aws_small_block_allocator_new(galloc::full(), mt);
     PBT_CHECK(sba != nullptr, "aws_small_block_allocator_new returned NULL");
-    PBT_CHECK(aws_small_block_allocator_page_size(sba) == PAGE && aws_small_block_allocator_page_size_available(sba) == PAGE - HDR,
-              "page geometry differs from what this harness observes");
+    {
+        size_t ps = aws_small_block_allocator_page_size(sba), av = aws_small_block_allocator_page_size_available(sba);
+        PBT_CHECK(ps >= 1024 && (ps & (ps - 1)) == 0 && av < ps && av >= ps / 2, "page geometry %zu / %zu available cannot be observed by this harness", ps, av);
+        PAGE = ps;
+        HDR = ps - av;
+    }
     size_t parent_baseline = galloc::live_blocks(); // allocator object + the bins' lists
 
     bool cross_up = false, cross_down = false, shrink_keep = false, move_small = false, reuse = false, grow_parent = false;
